@@ -4,7 +4,7 @@ tier="${1:-quick}"; shift
 props="${*:-C01 C02 C03 C04 C05 C06 C07 C08 C09 C10 C11 C12 C13 C14 C15 C16 C17 C18 C19 C20}"
 for p in $props; do
   s=$(date +%s.%N)
-  out="$(/verif/check $p $tier 2>&1)"; rc=$?
+  out="$("$(dirname "$0")/../check" $p $tier 2>&1)"; rc=$?
   e=$(date +%s.%N)
   printf "%s rc=%d %5.1fs %s\n" $p $rc $(echo "$e - $s" | bc) "$(echo "$out" | grep -E '^(PASS|FAIL|INTERNAL|VIOLATION)' | tail -1 | cut -c1-150)"
 done
